@@ -396,6 +396,10 @@ fn run_program<D: Backend>(ops: &[SOp], dir: &TempDir, stats: &mut ProgStats) ->
     Ok(())
 }
 
+pub fn c04_case_pub(ops: &Vec<SOp>) -> CaseResult {
+    c04_case(ops)
+}
+
 fn c04_case(ops: &Vec<SOp>) -> CaseResult {
     let dir = TempDir::new("c04");
     let mut ci = CaseInfo::default();
@@ -423,6 +427,7 @@ fn c04_case(ops: &Vec<SOp>) -> CaseResult {
 }
 
 pub fn c04(ctx: &mut Ctx) {
+    crate::fuzz_api::replay_raw_saved(ctx);
     ctx.rule = "storage programs (insert, insert_at inside / at the end / beyond the end, replace larger/smaller/equal/empty, resize, move_at overlapping both directions and zero size, remove, optimize, reopen; sizes around the 16-byte record header; 5% operations on dead indexes or out of range that must be rejected without effect) executed on MemoryStorage, FileStorage and FileStorageMemoryMapped through the VerifStorage wrapper, in lock-step with a reference map index->bytes: after every step every live index reads back exactly (value_as_bytes, value_size), dead indexes are errors, fresh indexes are not live; after optimize len() == empty + sum(16 + size(live)). evaluations = programs x 3 back-ends. Non-trivial: the program reuses a freed region AND has an optimize or reopen after a removal. Distinct = hash of the program.".into();
     let cases = ctx.tier.pick(15_000, 150_000);
     let max = ctx.tier.pick(60usize, 400usize);
